@@ -209,7 +209,8 @@ Definition process_pre (cfg : srvcfg) (c : conn) (t : msg) (sc : script) : conn 
              | Some u =>
                let afid_res : option (ftab * refs) :=
                  if negb (afid =? c_NOFID) then
-                   match fget ft1 afid with
+                   (* FidGet does not see the fid this very request is creating *)
+                   match (if afid =? fid then None else fget ft1 afid) with
                    | Some _ => Some (incref ft1 afid, mkRefs (Some fid) (Some afid) None)
                    | None => None
                    end
